@@ -917,7 +917,7 @@ func (r *rpf) expr(e ast.Expr) *Val {
 			}
 			return v
 		case *types.Slice, *types.Array:
-			v := &Val{K: VList, T: t, Pos: x.Pos()}
+			v := &Val{K: VList, T: t, Pos: x.Pos(), Local: true} // storage created by this very evaluation
 			for _, el := range x.Elts {
 				if _, ok := el.(*ast.KeyValueExpr); ok {
 					rpfFail("%s: keyed list literal", r.c.pos(x.Pos()))
